@@ -123,11 +123,35 @@ def fpp (fact : α → α) (D : α) (num den : Nat) : α :=
       || (Num.gt D ((N - Num.one) / (Num.two * N)) && isOddInt num den) then fppStephens D num den
   else fppAsym D num den
 
+/-- `MAX_AUTO_N` of `scipy.stats.ks_2samp`: with the default `method="auto"` the exact mode is attempted iff
+`max(n1, n2) <= 10000` -/
+def maxAutoN : Nat := 10000
+
+/-- `ks_2samp(X, Y, alternative="two-sided").statistic` as scipy RETURNS it (`_stats_py.py`, `ks_2samp` and
+`_attempt_exact_2kssamp`).  With the default `method="auto"` and `max(n, m) ≤ 10000` scipy enters the exact mode, which
+renormalises the raw ECDF difference `d` onto the lattice before anything else and returns the renormalised value even
+when the exact p-value computation fails:
+
+    lcm = (n1 // g) * n2;  h = int(np.round(d * lcm));  d = h * 1.0 / lcm
+
+Here `h` is `KS.hTwoSided X Y` (computed on integers: the largest `|c_X(z)·(lcm/n) − c_Y(z)·(lcm/m)|` over the pooled
+sample; `np.round(d * lcm)` recovers exactly this integer because the rounding error of `d * lcm` is below `1e-7` for
+`lcm ≤ 10^8`), `Nat.lcm n m = n * m / gcd n m = (n // g) * m`, and `h * 1.0 / lcm` is ONE correctly rounded division of two
+exactly represented integers (`h ≤ lcm ≤ 10^8 < 2^53`): at `Float` the value below is bit-identical to scipy's.  The raw
+difference `KS.statistic` (what frouros' own `KSTest._calculate_statistic` returns) differs from it by an ulp on most
+inputs, which matters here because `fpp` is discontinuous exactly on that lattice.  For `max(n, m) > 10000` scipy uses
+the asymptotic mode and returns the raw difference.  Over ℝ the two expressions are equal (`C12.kuiper_statistic_is_ks`). -/
+def ks2sampStatistic (X Y : List α) : α :=
+  if max X.length Y.length ≤ maxAutoN then
+    Num.ofNat (KS.hTwoSided X Y) / Num.ofNat (Nat.lcm X.length Y.length)
+  else KS.statistic X Y
+
 /-- `KuiperTest._kuiper(X, Y)`: `(statistic, p_value)`.  The statistic is `ks_2samp(X, Y, "two-sided").statistic`
-(`KS.statistic`; the preceding `np.sort` calls are absorbed: `KS.statistic` counts with `countLe`), i.e. the
-Kolmogorov–Smirnov `D = max(D⁺, D⁻)`, not Kuiper's `V = D⁺ + D⁻`. -/
+(`ks2sampStatistic`; the preceding `np.sort` calls are absorbed: `KS.hTwoSided` / `KS.statistic` count with `countLe`),
+i.e. the Kolmogorov–Smirnov `D = max(D⁺, D⁻)`, not Kuiper's `V = D⁺ + D⁻`.  (`ks_2samp` raises `ValueError` for an
+empty sample; the model then divides by `lcm = 0`; the theorems assume both samples non-empty.) -/
 def kuiper (fact : α → α) (X Y : List α) : α × α :=
-  let statistic := KS.statistic X Y
+  let statistic := ks2sampStatistic X Y
   let num := X.length * Y.length        -- sample_effective_size = X_size * Y_size / float(X_size + Y_size)
   let den := X.length + Y.length
   (statistic, fpp fact statistic num den)
